@@ -148,7 +148,7 @@ def analyze(prop, cases, results):
     return viol, disag, mfails
 
 
-def run(prop, tier, seed, verdict, profile=None, n=None):
+def run(prop, tier, seed, verdict, profile=None, n=None, widen=False):
     t0 = time.time()
     workdir = os.path.join(WORK, prop)
     os.makedirs(workdir, exist_ok=True)
@@ -168,10 +168,17 @@ def run(prop, tier, seed, verdict, profile=None, n=None):
     results = dev.execute(cases, binary, workdir, tag="main", jobs=12)
     viol, disag, mfails = analyze(prop, cases, results)
     extra_searched = 0
-    if disag and not viol:
-        # the correspondence broke but no monitor failed: widen the search for a failing input
+    if (disag or widen) and not viol:
+        # the correspondence broke but no monitor failed, or a proof obligation of this property broke (a regenerated body
+        # is no longer the one the tie was proved for): widen the search for a failing input — more cases, and the rarer
+        # situations (slow or stalled sink, directed patterns, twin axes, sweeps, creeping axes) made common
         rng2 = random.Random(seed * 7919 + 17)
-        more = [dev.gen_case(rng2, "x%d" % i, prof) for i in range(n * 2)]
+        prof2 = dict(prof)
+        if widen:
+            prof2.update(slow_sink_p=0.5, directed_p=0.5, creep_p=0.3, twin_axis_p=0.6,
+                         learn_axis_p=max(0.5, prof.get("learn_axis_p", 0.25)), panic_across_held_p=max(0.5, prof.get("panic_across_held_p", 0.0)),
+                         sweep_p=min(0.4, 2 * prof.get("sweep_p", 0.0)))
+        more = [dev.gen_case(rng2, "x%d" % i, prof2 if i % 2 else prof) for i in range(min(n * 2, 40000))]
         # neighbourhood of the disagreeing cases: same config, new histories
         for c, _ in disag[:20]:
             if getattr(c, "info", None) is None:
